@@ -23,10 +23,11 @@ theorem infer_bound (k : Nat) (vs : List Val) : (infer k vs).tdOk k = true :=
 theorem limit_zero_no_typed_dict (vs : List Val) : (infer 0 vs).hasTD = false :=
   tdOk_zero _ (infer_bound 0 vs)
 
-/-- only non-empty dicts whose keys are all strings and that have at most `k` keys become TypedDicts -/
+/-- only non-empty dicts whose keys are all strings — identifiers, so that the class syntax of the generated TypedDict can
+    express them — and that have at most `k` keys become TypedDicts -/
 theorem typed_dict_iff (k : Nat) (v : Val) :
     (getType k v).isTD = true ↔
-      ∃ kvs, v = .dict kvs ∧ kvs ≠ [] ∧ kvs.all (fun kv => kv.1.strKey?.isSome) = true ∧ kvs.length ≤ k := by
+      ∃ kvs, v = .dict kvs ∧ kvs ≠ [] ∧ kvs.all (fun kv => kv.1.tdKeyOk) = true ∧ kvs.length ≤ k := by
   cases v with
   | dict kvs =>
     cases kvs with
@@ -46,6 +47,12 @@ theorem typed_dict_iff (k : Nat) (v : Val) :
         simp only [Bool.and_eq_true, decide_eq_true_eq]
         exact ⟨h1, h2⟩
   | _ => simp [getType, Ty.isTD]
+
+/-- … in particular only dicts whose keys are all strings -/
+theorem typed_dict_keys_are_strings (k : Nat) (v : Val) (h : (getType k v).isTD = true) :
+    ∃ kvs, v = .dict kvs ∧ kvs.all (fun kv => kv.1.strKey?.isSome) = true := by
+  obtain ⟨kvs, hv, _, hk, _⟩ := (typed_dict_iff k v).mp h
+  exact ⟨kvs, hv, all_tdKeyOk_strKey kvs hk⟩
 
 /-- when shapes are mixed every TypedDict is rewritten to Dict, at every depth the generic rewriter reaches -/
 theorem mixed_shapes_no_typed_dict (t : Ty) : (tdToDict t).hasTD = false := tdToDict_noTD t
